@@ -392,11 +392,11 @@ class _VersionIndependentUnmarshaller:
 
     def t_tuple(self, save_ref, bytes_for_s=False):
         tuplesize = unpack("<i", self.fp.read(4))[0]
-        ret = self.r_ref(tuple(), save_ref)
+        ret, i = self.r_ref_reserve(tuple(), save_ref)
         while tuplesize > 0:
             ret += (self.r_object(bytes_for_s=bytes_for_s),)
             tuplesize -= 1
-        return ret
+        return self.r_ref_insert(ret, i)
 
     def t_list(self, save_ref, bytes_for_s=False):
         # FIXME: check me
